@@ -215,10 +215,15 @@ impl Idle {
                             radio::Response::TxDone(ms) => {
                                 data_rxwindow1_timeout::<R, N>(frame, rx_windows, mac, radio, ms)
                             }
-                            _ => (State::Idle(self), Err(Error::UnexpectedRadioResponse.into())),
+                            _ => (
+                                State::Idle(self),
+                                abandon_uplink(frame, mac, Error::UnexpectedRadioResponse.into()),
+                            ),
                         }
                     }
-                    Err(e) => (State::Idle(self), Err(super::Error::Radio(e))),
+                    Err(e) => {
+                        (State::Idle(self), abandon_uplink(frame, mac, super::Error::Radio(e)))
+                    }
                 }
             }
         }
@@ -420,6 +425,22 @@ impl WaitingForRx {
             }
         }
     }
+}
+
+/// The radio failed while it was handed an uplink. The frame may have gone out, so the counter of a
+/// data frame must never be used for a different frame: close the uplink as if both windows had
+/// elapsed. Reports session expiry instead of the error when the counter space is used up.
+fn abandon_uplink<R: radio::PhyRxTx>(
+    frame: Frame,
+    mac: &mut Mac,
+    error: super::Error<R>,
+) -> Result<Response, super::Error<R>> {
+    if let Frame::Data = frame
+        && let mac::Response::SessionExpired = mac.rx2_complete()
+    {
+        return Ok(Response::SessionExpired);
+    }
+    Err(error)
 }
 
 #[derive(Copy, Clone, Debug)]
